@@ -126,6 +126,10 @@ static void observe()
     if(r) printf(" ");
     hxPutHex(reg[r] + GUARD, REGLEN[r]);
   }
+  // the capacities: handed to the model as the capacity policy of the operation (model: max(needed, reported))
+  printf(" @");
+  for(int i = 0; i < NV; ++i)
+    printf(" %lu", (unsigned long)var[i]->capacity());
   hxEndLine();
 }
 
